@@ -10,9 +10,9 @@ type OptDecl struct {
 	Names  []string // without dashes
 	Flag   bool     // bool flag
 	Multi  bool
-	EnvSet bool // backed by a set, valid env var
+	EnvSet bool   // backed by a set, valid env var
 	EnvVal string // the value of that variable (default: "true" for flags, "envval" otherwise)
-	Int    bool // typed declaration: values must be base-10 integers (trees of C07)
+	Int    bool   // typed declaration: values must be base-10 integers (trees of C07)
 }
 
 func (o *OptDecl) Dashed() []string {
